@@ -39,15 +39,22 @@ func (o *OvsMap) UnmarshalJSON(b []byte) (err error) {
 	var oMap []interface{}
 	o.GoMap = make(map[interface{}]interface{})
 	if err := json.Unmarshal(b, &oMap); err == nil && len(oMap) > 1 {
-		innerSlice := oMap[1].([]interface{})
+		notAMap := &json.UnmarshalTypeError{Value: reflect.ValueOf(oMap).String(), Type: reflect.TypeOf(*o)}
+		innerSlice, ok := oMap[1].([]interface{})
+		if !ok {
+			return notAMap
+		}
 		for _, val := range innerSlice {
-			f := val.([]interface{})
+			f, ok := val.([]interface{})
+			if !ok || len(f) != 2 {
+				return notAMap
+			}
 			var k interface{}
 			switch f[0].(type) {
 			case []interface{}:
 				vSet := f[0].([]interface{})
 				if len(vSet) != 2 || vSet[0] == "map" {
-					return &json.UnmarshalTypeError{Value: reflect.ValueOf(oMap).String(), Type: reflect.TypeOf(*o)}
+					return notAMap
 				}
 				goSlice, err := ovsSliceToGoNotation(vSet)
 				if err != nil {
@@ -57,11 +64,15 @@ func (o *OvsMap) UnmarshalJSON(b []byte) (err error) {
 			default:
 				k = f[0]
 			}
+			if k == nil || !reflect.TypeOf(k).Comparable() {
+				// not an atom: cannot be the key of a map
+				return notAMap
+			}
 			switch f[1].(type) {
 			case []interface{}:
 				vSet := f[1].([]interface{})
 				if len(vSet) != 2 || vSet[0] == "map" {
-					return &json.UnmarshalTypeError{Value: reflect.ValueOf(oMap).String(), Type: reflect.TypeOf(*o)}
+					return notAMap
 				}
 				goSlice, err := ovsSliceToGoNotation(vSet)
 				if err != nil {
